@@ -8,6 +8,12 @@ from ..core import from_us, us
 from ..runner import ImplRun, Prop
 
 
+def pd_to_dt(x):
+    import pandas as pd
+
+    return pd.Timestamp(x).to_pydatetime()
+
+
 class C15(Prop):
     id = "C15"
     driver = "Env"
@@ -159,6 +165,19 @@ class C15(Prop):
             if prev is not None and not (prev[3] < c and c - prev[2] == te):
                 r.fail("walk-forward-overlap", prev=prev, fold=(a, b, c, d), theorem="walk_forward_disjoint")
             prev = (a, b, c, d)
+        # the same folds as timestamps (Folds.as_time): each bound is the timestep at the fold's index
+        try:
+            ft = folds.as_time()
+            for i, (a, b, c, d) in enumerate(rows):
+                want = (ts[a], ts[b], ts[c], ts[d])
+                got_t = tuple(pd_to_dt(x[i]) for x in (ft.train_start, ft.train_end, ft.test_start, ft.test_end))
+                if got_t != want:
+                    r.fail("walk-forward-window", fold=(a, b, c, d), as_time=[str(x) for x in got_t],
+                           expected=[str(x) for x in want], theorem="walk_forward_spec",
+                           clause="test windows ... begin immediately after their own training window (as timestamps)")
+        except Exception as e:  # noqa
+            if rows:
+                r.fail("walk-forward-window", error=f"as_time raised {type(e).__name__}: {str(e)[:80]}")
         # completeness: another fold would not fit
         last_start = rows[-1][2] - tr if rows else -te
         if last_start + te + tr + te - 1 <= n - 1:
